@@ -105,20 +105,33 @@ def main(ck):
     ok = ck.prove("props/Properties_C01.v", ["model/HandoffObs.vo"])
     # ---- implementation side: exhaustive exploration
     exe, b = vlib.compile_harness("F", [os.path.join(vlib.VERIF, "harness", "h_c01.cpp")], "c01")
-    rows, out, err, rc = runner.run_harness(exe, ["--mode", "dfs"])
-    if rc != 0:
-        m = re.search(r"CRASH signal=(\d+) choices=([\d,]*)", out + err)
-        ck.hits.append(dict(what="harness crashed (rc=%d) %s" % (rc, (err or out)[-600:]),
-                            key="crash", replay=dict(harness="h_c01", choices=m.group(2) if m else None)))
+    # twice: a fiber switch offered before every wrapped operation (the plain code that follows an operation runs in one
+    # piece with it), then after every wrapped operation (a fiber can stop between its operation and the plain code
+    # that follows it, e.g. a store into something it has just published)
+    rows, seen = [], set()
+    for ya in ("before", "after"):
+        rows_y, out, err, rc = runner.run_harness(exe, ["--mode", "dfs", "--yield-at", ya])
+        if rc != 0:
+            m = re.search(r"CRASH signal=(\d+) choices=([\d,]*)", out + err)
+            ck.hits.append(dict(what="harness crashed (rc=%d) %s" % (rc, (err or out)[-600:]),
+                                key="crash", replay=dict(harness="h_c01", choices=m.group(2) if m else None, yield_at=ya)))
+        for r in rows_y:
+            if "trace" in r:
+                if (r["scenario"], r["trace"]) in seen:
+                    continue
+                seen.add((r["scenario"], r["trace"]))
+                r["yield_at"] = ya
+            rows.append(r)
     heads = [r for r in rows if "mode" in r]
     traces = [r for r in rows if "trace" in r]
     ck.cov["evaluations"] = sum(h["executions"] for h in heads)
-    ck.cov["exhaustive"] = bool(heads) and all(h["exhaustive"] for h in heads) and len(heads) == 48 + 96
+    ck.cov["exhaustive"] = bool(heads) and all(h["exhaustive"] for h in heads) and len(heads) == 2 * (48 + 96)
     ck.cov["scenarios"] = len(heads)
     for t in traces:
         if t["fail"]:
             ck.hits.append(dict(what="%s: %s" % (t["scenario"], t["fail"]), key=t["scenario"].split("/")[1].split("@")[0] + ":" + t["fail"][:40],
-                                replay=dict(harness="h_c01", scenario=t["scenario"], choices=t["choices"], trace=t["trace"])))
+                                replay=dict(harness="h_c01", scenario=t["scenario"], choices=t["choices"], trace=t["trace"],
+                                            yield_at=t.get("yield_at"))))
     # ---- correspondence: replay every distinct trace through the model inside Coq
     terms, metas = [], []
     for t in traces:
@@ -182,7 +195,8 @@ def replay(ck, path):
         print("nothing to replay: %s" % json.dumps(d)[:2000])
         return 0
     exe, b = vlib.compile_harness("F", [os.path.join(vlib.VERIF, "harness", "h_c01.cpp")], "c01")
-    rows, out, err, rc = runner.run_harness(exe, ["--mode", "replay", "--exact", rp["scenario"], "--choices", rp["choices"]])
+    rows, out, err, rc = runner.run_harness(exe, ["--mode", "replay", "--exact", rp["scenario"], "--choices", rp["choices"],
+                                                  "--yield-at", rp.get("yield_at") or "before"])
     print(out)
     bad = any(r.get("fail") for r in rows if "trace" in r)
     return 1 if bad or rc != 0 else 0
